@@ -53,11 +53,6 @@ type xConf struct {
 	progs [][]xOp
 	plan  [][2]bool // per session: (reader ends although nobody closed, Listen returns an error)
 	max   int       // schedules to explore at most (0: the tier's default)
-	// ioOnly: explored at I/O granularity only.  In Reconnect the code clears the sticky error (setErr) a few
-	// instructions after the dial; the model does both in one step.  With lock operations as yield points another
-	// worker's Send can read the not-yet-cleared error inside that window -- legitimate (the Reconnect has not
-	// returned yet) but below the model's granularity; at I/O granularity the two are one step of the code as well.
-	ioOnly bool
 }
 
 func (cf xConf) modelProgs() string {
@@ -423,7 +418,7 @@ func C17(c *core.Ctx) {
 		{name: "Send || Disconnect", progs: [][]xOp{{C1, xSend(20, true)}, {D}}},
 		{name: "Send;Send || Reconnect", progs: [][]xOp{{C1, xSend(20, true), xSend(30, true)}, {R1}}},
 		{name: "SendRaw || Reconnect(fail) || Send", progs: [][]xOp{{C1, raw}, {R0}, {xSend(20, true)}}},
-		{name: "reader fails: Send;Send || Reconnect;Send", progs: [][]xOp{{C1, xSend(20, true), xSend(21, true)}, {R1, xSend(22, true)}}, plan: [][2]bool{{true, true}, {false, false}}, ioOnly: true},
+		{name: "reader fails: Send;Send || Reconnect;Send", progs: [][]xOp{{C1, xSend(20, true), xSend(21, true)}, {R1, xSend(22, true)}}, plan: [][2]bool{{true, true}, {false, false}}},
 		{name: "reader of a replaced session fails on close", progs: [][]xOp{{C1, R1, xSend(20, true), xSend(21, true)}}, plan: [][2]bool{{false, true}, {false, false}}},
 		{name: "Connect || Connect || Send", progs: [][]xOp{{C1}, {C1}, {xSend(20, true)}}},
 		{name: "Disconnect || Disconnect || Send", progs: [][]xOp{{C1, D}, {D}, {xSend(20, true)}}},
@@ -447,10 +442,6 @@ func C17(c *core.Ctx) {
 	}
 	total, allEx := 0, true
 	for _, cf := range confs {
-		if fine && cf.ioOnly {
-			c.Hist("configuration left to the I/O-granularity phase: " + cf.name)
-			continue
-		}
 		max := c.N(70, 10000)
 		if fine {
 			max = c.N(15, 2000)
